@@ -31,6 +31,11 @@ fn main() {
                 None => println!("not reproduced on this tree"),
             }
         }
+        Some("selftest") => {
+            let hits = search::selftest();
+            for h in &hits { println!("FALSE-HIT {h}"); }
+            std::process::exit(if hits.is_empty() { 0 } else { 1 });
+        }
         _ => eprintln!("usage: replay witness [name..] | search <Cxx> [obligation..] | replay <json>"),
     }
 }
